@@ -20,5 +20,6 @@ run dst_test.go.part . clone '*'
 run dst_test.go.part . walk '*'
 run dstutil_test.go.part dstutil accessor '*'
 run decorator_test.go.part decorator restore '*'
+run decorator_test.go.part decorator helpers applyDecorations
 for op in Append Prepend Replace Clear All; do run dst_test.go.part . declist $op; done
 exit $rc
